@@ -20,6 +20,7 @@ DISPATCH = {
     "C05": ("harness.props.g1", "run"),
     "C08": ("harness.props.g1", "run"),
     "C09": ("harness.props.g1", "run"),
+    "C10": ("harness.props.c10", "run"),
     "C11": ("harness.props.c11", "run"),
     "C14": ("harness.props.c14", "run"),
     "C15": ("harness.props.c15", "run"),
